@@ -49,8 +49,10 @@ def anchor_digest(file_rel, qualname):
         found = None
         for ch in ast.iter_child_nodes(node):
             if isinstance(ch, (ast.FunctionDef, ast.AsyncFunctionDef, ast.ClassDef)) and ch.name == part:
-                found = ch
-                break
+                found = ch          # keep the LAST definition: @overload stubs come first
+                continue
+            if found is not None:
+                continue
             if isinstance(ch, ast.Assign) and any(isinstance(t, ast.Name) and t.id == part for t in ch.targets):
                 found = ch
                 break
